@@ -4,7 +4,7 @@ import os
 import z3
 
 from pyvc.vals import Val, NONE, S, B, I, K, LAT, TYP, sub, SeqV, Str, AVV, AVB, BASE, fresh, truthy, is_exc, St, Unsupported
-from specs.util import accumulator
+from specs.util import accumulator, is_generator_function, havoc_fields_written
 from pyvc.engine import Exec, Bound
 from pyvc import engine as _eng
 from pyvc.repo import Repo
@@ -141,7 +141,14 @@ def play_category(props=None):
     def c_play(ex_, s, args, kw, node_, star, dstar):
         v = fresh('playback'); s.trace.append(dict(kind='Iface', name='TapeRecorder.play', pos=list(args), outcome=('ret', v))); return [(s, ('val', v))]
     ex.contracts['TapeRecorder.play'] = c_play
-    paths = ex.block(node.body, st); obl = []; U = '_play_category'; n = len(paths)
+    U = '_play_category'
+    if is_generator_function(node):
+        # Python: calling a generator function runs none of its body.  The contract speaks of what the CALL returns (the tuning error for
+        # this category, or the equalizer's comparison generator): a generator function can return neither.
+        lib.used('E: a def containing yield is a generator function; calling it executes nothing and returns a generator object')
+        return [info], [Obl('C19/%s/tuning_error_is_returned_for_this_category_and_nothing_is_played' % U, 'C19', st, z3.BoolVal(False), ('return', NONE))], {'paths': 1, 'forks': 0}
+    st0 = st.copy()
+    paths = ex.block(node.body, st); obl = []; n = len(paths)
     for s, oc in paths:
         tc = [t for t in s.trace if t['name'] == 'create_category_tuning']
         obl.append(Obl('C19/%s/tuner_asked_once_for_this_category' % U, 'C19', s, z3.And(z3.BoolVal(len(tc) == 1 and len(tc[0]['pos']) == 1), tc[0]['pos'][0] == cat) if len(tc) == 1 and tc[0]['pos'] else z3.BoolVal(False), oc))
@@ -166,13 +173,21 @@ def play_category(props=None):
                                     s.rd(eq, 'compare_execution_config') == s.rd(selfv, 'compare_execution_config'))), oc))
         # the player closure: player(id) = recorder.play(id, this category's playback function)
         pl = s.rd(eq, 'player'); rid = fresh('some_recording_id')
-        for s2, r2 in ex.call_value(s.copy(), pl, [rid], {}, node):
+        # the comparison generator is consumed LATER, possibly after _play_category ran for other categories: whatever this call stored in the
+        # studio object may have been overwritten by then
+        s_later = s.copy(); havoc_fields_written(s_later, st0, selfv)
+        for s2, r2 in ex.call_value(s_later, pl, [rid], {}, node):
             n += 1
             pc = [t for t in s2.trace if t['name'] == 'TapeRecorder.play']
             obl.append(Obl('C19/%s/player_replays_the_id_with_this_categorys_playback_function' % U, 'C19', s2,
                            z3.And(z3.BoolVal(len(pc) == 1 and r2[0] == 'val'), pc[0]['pos'][0] == s2.rd(selfv, 'tape_recorder'), pc[0]['pos'][1] == rid,
                                   pc[0]['pos'][2] == s2.rd(tuning, 'playback_function'), r2[1] == pc[0]['outcome'][1]) if len(pc) == 1 and r2[0] == 'val' else z3.BoolVal(False), r2))
-    return [info, repo.find(ST + '_play_category.player')[3], repo.find('playback.studio.equalizer:Equalizer.__init__')[3]], obl, {'paths': n, 'forks': ex.forks}
+    infos = [info, repo.find('playback.studio.equalizer:Equalizer.__init__')[3]]
+    try:
+        infos.append(repo.find(ST + '_play_category.player')[3])
+    except KeyError:
+        pass                       # the player need not be a nested function of that name
+    return infos, obl, {'paths': n, 'forks': ex.forks}
 
 
 def play(mode='explicit', props=None):
